@@ -283,7 +283,7 @@ def candidates(sc):
                 c = copy.deepcopy(sc)
                 c["actors"][ai]["ops"][oi]["ms"] = 1 if o["ms"] < 1000 else o["ms"] // 10
                 yield c
-    if any(sc.get("schedule", [])):
+    if any(sc.get("schedule") or []):
         c = copy.deepcopy(sc)
         c["schedule"] = [0] * len(sc["schedule"])
         yield c
